@@ -31,15 +31,22 @@ func init() {
 	workers["c13race"] = func() { workerLoop(c13RaceRun) }
 }
 
-const c13Watchdog = 8 * time.Second
+// an operation counts as never completing when NO operation of the workload has completed for this
+// long (progress-based: a busy machine slows everything down but does not stop it)
+const c13Watchdog = 30 * time.Second
 
 // c13Server answers every command the workloads send; it dies after `dieAfter` commands
 // (how: 0 close, 1 reset = the client's next read fails, 2 never).
-func c13Server(srv, cli *memConn, dieAfter int, how int, done chan<- struct{}) {
+func c13Server(srv, cli *memConn, dieAfter int, how int, announceCaps bool, done chan<- struct{}) {
 	defer close(done)
 	br := bufio.NewReader(srv)
 	w := func(s string) { srv.Write([]byte(s)) }
-	w("* OK [CAPABILITY IMAP4rev1 IDLE ENABLE] ready\r\n")
+	capsCode := "[CAPABILITY IMAP4rev1 IDLE ENABLE] "
+	if !announceCaps {
+		// the client has to ask: Caps() and the refresh goroutine of setCaps(nil) come into play
+		capsCode = ""
+	}
+	w("* OK " + capsCode + "ready\r\n")
 	n := 0
 	for {
 		line, err := br.ReadString('\n')
@@ -78,7 +85,7 @@ func c13Server(srv, cli *memConn, dieAfter int, how int, done chan<- struct{}) {
 		case "LIST":
 			w("* LIST () \"/\" \"INBOX\"\r\n* LIST () \"/\" \"Sent\"\r\n" + tag + " OK done\r\n")
 		case "LOGIN":
-			w(tag + " OK [CAPABILITY IMAP4rev1 IDLE ENABLE] done\r\n")
+			w(tag + " OK " + capsCode + "done\r\n")
 		case "ENABLE":
 			w("* ENABLED UTF8=ACCEPT\r\n" + tag + " OK done\r\n")
 		case "SEARCH":
@@ -105,15 +112,17 @@ func c13RaceOnce(seed uint64) string {
 	how := r.intn(3)
 	dieAfter := r.intn(30)
 	closeByClient := r.chance(1, 3)
+	announceCaps := !r.chance(1, 3)
 	cli, srv := memPipe()
 	srvDone := make(chan struct{})
-	go c13Server(srv, cli, dieAfter, how, srvDone)
+	go c13Server(srv, cli, dieAfter, how, announceCaps, srvDone)
 	cl := imapclient.New(cli, nil)
 
 	const nSub, nOps = 8, 5
 	var subWG, wg sync.WaitGroup
 	var panicked atomic.Value
 	var pending sync.Map // "sub/op:kind" -> struct{}: operations that have not returned
+	var progress atomic.Int64
 	guard := func(g *sync.WaitGroup, f func()) {
 		defer g.Done()
 		defer func() {
@@ -130,6 +139,9 @@ func c13RaceOnce(seed uint64) string {
 		go guard(&subWG, func() {
 			for j := 0; j < nOps; j++ {
 				k := pick(rs, c13RaceKinds)
+				if !announceCaps && i == 0 && j == 0 {
+					k = "search" // a SEARCH racing the client's own CAPABILITY refresh
+				}
 				key := fmt.Sprintf("%d/%d:%s", i, j, k)
 				pending.Store(key, struct{}{})
 				switch k {
@@ -158,6 +170,7 @@ func c13RaceOnce(seed uint64) string {
 					}
 				}
 				pending.Delete(key)
+				progress.Add(1)
 			}
 		})
 	}
@@ -187,18 +200,30 @@ func c13RaceOnce(seed uint64) string {
 	allDone := make(chan struct{})
 	go func() { subWG.Wait(); close(stop); wg.Wait(); close(allDone) }()
 	res := ""
-	select {
-	case <-allDone:
-	case <-time.After(c13Watchdog):
-		var left []string
-		pending.Range(func(k, _ any) bool { left = append(left, k.(string)); return true })
-		sort.Strings(left)
-		buf := make([]byte, 1<<20)
-		buf = buf[:runtime.Stack(buf, true)]
-		if p := os.Getenv("VERIF_C13_DUMP"); p != "" {
-			os.WriteFile(p, buf, 0o644)
+	last, lastAt := progress.Load(), time.Now()
+	tick := time.NewTicker(20 * time.Millisecond)
+	defer tick.Stop()
+wait:
+	for {
+		select {
+		case <-allDone:
+			break wait
+		case <-tick.C:
+			if p := progress.Load(); p != last {
+				last, lastAt = p, time.Now()
+			} else if time.Since(lastAt) > c13Watchdog {
+				var left []string
+				pending.Range(func(k, _ any) bool { left = append(left, k.(string)); return true })
+				sort.Strings(left)
+				buf := make([]byte, 1<<20)
+				buf = buf[:runtime.Stack(buf, true)]
+				if p := os.Getenv("VERIF_C13_DUMP"); p != "" {
+					os.WriteFile(p, buf, 0o644)
+				}
+				res = "command-never-completes " + strings.Join(left, ",") + " " + c13DumpSig(buf)
+				break wait
+			}
 		}
-		res = "command-never-completes " + strings.Join(left, ",") + " " + c13DumpSig(buf)
 	}
 	// final Close must return too
 	cd := make(chan struct{})
@@ -288,7 +313,6 @@ func c13RaceRun(req string) string {
 	seed, _ := strconv.ParseUint(req, 10, 64)
 	path, before := c13RaceLogSize()
 	res := c13RaceOnce(seed)
-	time.Sleep(2 * time.Millisecond)
 	if path != "" {
 		if data, err := os.ReadFile(path); err == nil && int64(len(data)) > before {
 			if sigs := c13RaceReports(string(data[before:])); len(sigs) > 0 {
@@ -305,7 +329,7 @@ func c13RaceRun(req string) string {
 
 func c13RaceBatch(exe, tmp string, seeds []uint64) []string {
 	logp := filepath.Join(tmp, fmt.Sprintf("racelog-%d", seeds[0]))
-	pool := &workerPool{name: "c13race", timeout: 4 * c13Watchdog, exe: exe, maxBad: 3,
+	pool := &workerPool{name: "c13race", timeout: 10 * time.Minute, exe: exe, maxBad: 3,
 		env: []string{"GORACE=log_path=" + logp + " halt_on_error=0", "VERIF_C13_RACELOG=" + logp}}
 	// small batches: a tree that hangs in every run costs a watchdog per run, three are enough
 	res := make([]string, len(seeds))
